@@ -362,3 +362,59 @@ def k21(res, tier, seed, tag="k21"):
         res.broke("correspondence-error", "K21", e)
     for i in fails[:5]:
         res.broke("correspondence", "K21 " + meta[i]["func"], meta[i])
+
+
+def k22(res, tier, seed, tag="k22"):
+    """K22: the composed window pipeline Model/IsimipWindow.v vs the real ISIMIP._apply_on_window for an unbounded additive
+    variable (tas settings) with the rational location-scale distribution, the KS fallback off and step 3's three
+    significance decisions recorded from the same data; tie-free dyadic samples over 2..5 years."""
+    logging.getLogger("ibicus").setLevel(logging.CRITICAL)
+    from ibicus.debias import ISIMIP
+    import scipy.stats
+    from ibicus.utils import get_years_and_yearly_means
+    r = C.rng_for(seed, tag)
+    n = 16 if tier == "quick" else 160
+    cc = C.CoqCases(tag, ["NP", "QL", "Dist", "Ecdf", "RatLS", "IsimipStep3", "IsimipStep5", "IsimipWindow", "CorrBase", "Step1Corr"], per_file=20)
+    meta = []
+    def sig_of(x, years, test):
+        uy, am = get_years_and_yearly_means(fl(x), np.array(years))
+        pv = scipy.stats.linregress(uy, am).pvalue if len(uy) > 1 else float("nan")
+        return bool(pv < 0.05 and test), pv
+    with warnings.catch_warnings():
+        warnings.simplefilter("ignore")
+        for i in range(n):
+            im = r.choice(["linear", "inverted_cdf", "hazen"]); em = "linear_interpolation" if im != "inverted_cdf" else r.choice(["step_function", "linear_interpolation"])
+            test = (i % 4 != 3)
+            def series(ny, slope):
+                y0 = r.randint(1950, 2090); ys = list(range(y0, y0 + ny))
+                years = [y for y in ys for _ in range(r.randint(2, 4))]
+                vals = set()
+                while len(vals) < len(years): vals.add(dy(r, -6, 6, 64))
+                vals = list(vals); r.shuffle(vals)
+                return years, [v + Fraction(slope * (y - y0)) for v, y in zip(vals, years)]
+            yo, o = series(r.randint(2, 5), r.choice([0, 0, 2])); yh, h = series(r.randint(2, 5), r.choice([0, 0, -3])); yf, f = series(r.randint(2, 5), r.choice([0, 4, 1]))
+            if im == "inverted_cdf":
+                no, nh, nf = len(o), len(h), len(f)
+                ps = [Fraction(k, no - 1) for k in range(no)] if em == "linear_interpolation" else [Fraction(k + 1, no) for k in range(no)]
+                if any(((m_ - 1) * p_).denominator == 1 and p_ not in (0, 1) for p_ in ps for m_ in (nh, nf)):
+                    res.count("k22-skipped-at-float-discontinuity"); continue
+            sigs = [sig_of(x_, y_, test) for x_, y_ in ((o, yo), (h, yh), (f, yf))]
+            if any(abs(pv - 0.05) < 1e-6 for _, pv in sigs): res.count("k22-skipped-at-significance-boundary"); continue
+            d = ISIMIP.from_variable("tas", distribution=ratls_model(), ks_test_for_goodness_of_cdf_fit=False, detrending_with_significance_test=test,
+                                     ecdf_method=em, iecdf_method=im)
+            try:
+                out = d._apply_on_window(fl(o), fl(h), fl(f), years_obs_hist=np.array(yo), years_cm_hist=np.array(yh), years_cm_future=np.array(yf))
+            except Exception as e:
+                res.broke("correspondence-error", "K22 implementation raised", dict(error=repr(e)[:300])); continue
+            if not np.all(np.isfinite(out)): res.count("k22-skipped-nonfinite"); continue
+            tol = C.tol_for(list(out)) * 10000
+            b = lambda v: "true" if v else "false"
+            cc.add("k22 %s %s %s %s %s %s %s %s %s %s %s %s %s" % (em, im, b(sigs[0][0]), b(sigs[1][0]), b(sigs[2][0]), C.zl(yo), C.zl(yh), C.zl(yf), C.ql(o), C.ql(h), C.ql(f), C.ql(out), C.q(tol)))
+            m = dict(func="ISIMIP._apply_on_window (tas, rational distribution)", ecdf=em, iecdf=im, significant=[s for s, _ in sigs], n=[len(o), len(h), len(f)])
+            meta.append(m); res.case(("window", em, im, tuple(s for s, _ in sigs)), sample=m if len(res.samples) < 5 else None)
+    fails, errors = cc.run()
+    res.components["K22 Model/IsimipWindow.v (composition of the step models) vs ISIMIP._apply_on_window"] = dict(cases=len(cc.cases), disagreements=len(fails), errors=len(errors))
+    for e in errors[:3]:
+        res.broke("correspondence-error", "K22", e)
+    for i in fails[:5]:
+        res.broke("correspondence", "K22 " + meta[i]["func"], meta[i])
